@@ -31,8 +31,17 @@ GRAPHS = {
 }
 
 
+# a long graph (27 nodes: 12 bubbles in a row): MinFlowDecomp's subgraph-scanning lower bound only does something above 20 nodes
+_G2_arcs = []
+for _i in range(12):
+    _G2_arcs += [[f"n{_i}", f"n{_i + 1}", 3], [f"n{_i}", f"b{_i}", 2], [f"b{_i}", f"n{_i + 1}", 2]]
+_G2_arcs += [["n12", "n13", 5]]
+GRAPHS["G2"] = {"nodes": [f"n{_i}" for _i in range(14)] + [f"b{_i}" for _i in range(12)], "arcs": _G2_arcs}
+G2_OPS = ["MinFlowDecomp:scan", "MinFlowDecomp:shared_scan", "MinFlowDecomp:defaults", "kFlowDecomp:defaults", "MinFlowDecomp:node"]
+
+
 def bounds(tier):
-    return {"history_length": 2 if tier == "quick" else 3, "graphs": list(GRAPHS), "operations": len(OPS)}
+    return {"history_length": 2 if tier == "quick" else 3, "graphs": list(GRAPHS), "operations": len(OPS), "operations_on_G2": G2_OPS}
 
 
 def _ops():
@@ -75,6 +84,11 @@ def _ops():
         ops[f"{cls}:shared"] = {"cls": cls, "use": shared + (["subpath_constraints"] if cls == "MinPathCover" else ["subset_constraints"])}
         ops[f"{cls}:defaults"] = {"cls": cls, "use": []}
         ops[f"{cls}:node"] = {"cls": cls, "use": ["solver_options"], "extra": {"cover_type": "node"}}
+    # G2 only: the non-default lower-bound option, with its own shared options dict
+    ops["MinFlowDecomp:scan"] = {"cls": "MinFlowDecomp", "use": ["solver_options"], "use_as": {"optimization_options": "optimization_options_scan"}}
+    ops["MinFlowDecomp:shared_scan"] = {"cls": "MinFlowDecomp", "use": ["solver_options"], "use_as": {"optimization_options": "optimization_options_scan"},
+                                        "extra": {"subpath_constraints": [[("n0", "n1"), ("n1", "n2")]]}}
+    ops["MinFlowDecomp:node"] = {"cls": "MinFlowDecomp", "use": ["solver_options"], "extra": {"flow_attr_origin": "node"}, "node": True}
     ops["MinErrorFlow:shared"] = {"cls": "MinErrorFlow", "use": ["solver_options", "elements_to_ignore", "error_scaling", "additional_starts", "additional_ends"]}
     ops["MinErrorFlow:defaults"] = {"cls": "MinErrorFlow", "use": []}
     # error scaling 0 (= ignore) while elements_to_ignore is left at its (mutable) default
@@ -91,12 +105,13 @@ REDUCED = [k for k in OPS if k.endswith(":shared") or k.endswith(":superset") or
 def cases(tier, seed):
     names = sorted(OPS)
     for gname in GRAPHS:
-        for a in names:
+        nm = [n for n in names if n not in ("MinFlowDecomp:scan", "MinFlowDecomp:shared_scan")] if gname == "G1" else G2_OPS
+        for a in nm:
             yield {"graph": gname, "history": [a]}
-        for a, b in itertools.product(names, repeat=2):
+        for a, b in itertools.product(nm, repeat=2):
             yield {"graph": gname, "history": [a, b]}
         if tier == "thorough":
-            for h in itertools.product(REDUCED, repeat=3):
+            for h in itertools.product(REDUCED if gname == "G1" else G2_OPS, repeat=3):
                 yield {"graph": gname, "history": list(h)}
 
 
@@ -168,6 +183,7 @@ def _shared_objects(gname):
         "error_scaling": {("s", "b"): 0.5},
         "additional_starts": ["a"],
         "additional_ends": ["b"],
+        "optimization_options_scan": {"use_subgraph_scanning_lowerbound": True},
     }, case
 
 
@@ -178,6 +194,8 @@ def _run_op(opname, sh, case):
     kw = {}
     for name in op["use"]:
         kw[name] = sh[name]
+    for name, shared_name in op.get("use_as", {}).items():
+        kw[name] = sh[shared_name]
     if "k" in op:
         kw["k"] = op["k"]
     kw.update(copy.deepcopy(op.get("extra", {})))
@@ -297,15 +315,15 @@ def run(case):
             if i > 0:
                 sh2, gc2 = _shared_objects(case["graph"])
                 # evaluate solo reference lazily (cached per worker); globals restored first
-                if opname not in _SOLO:
+                if (case["graph"], opname) not in _SOLO:
                     _restore_globals(objs0)
-                    _SOLO[opname] = _run_op(opname, sh2, gc2)
-                ref = _SOLO[opname]
+                    _SOLO[(case["graph"], opname)] = _run_op(opname, sh2, gc2)
+                ref = _SOLO[(case["graph"], opname)]
                 if _obs_key(ref) != _obs_key(obs):
                     viol.append({"kind": "history_dependent_result", "op": opname, "prev": hist[i - 1],
                                  "msg": f"{opname} after {hist[:i]} observed { {k: v for k, v in obs.items() if k != 'op'} } but from the initial state { {k: v for k, v in ref.items() if k != 'op'} }"})
-            elif opname not in _SOLO and not viol:
-                _SOLO[opname] = obs
+            elif (case["graph"], opname) not in _SOLO and not viol:
+                _SOLO[(case["graph"], opname)] = obs
     finally:
         _restore_globals(objs0)
     states = len(seen_states)
